@@ -48,6 +48,10 @@ ENGINES = [
      "kind_free_text": "monitor: three capturing rules of one phase (two @rx with groups, one that never matches); TX.0-9 afterwards vs the expectation computed with Go's regexp"},
     {"name": "tfwrap", "path": "go/cmd/corr/tfwrap.go", "serves_properties": ["C13"],
      "kind_free_text": "monitor: 65 355 transformation chains registered by other WAFs between two families of chains; every rule of a WAF using both families must see its own list's value"},
+    {"name": "rderr", "path": "go/cmd/corr/rderr.go", "serves_properties": ["C20"],
+     "kind_free_text": "monitor: bodies arriving through Read{Request,Response}BodyFrom from a reader that fails after a prefix (plain error, io.ErrUnexpectedEOF, errors wrapping or joined with io.EOF); a failure before the limit must be reported by the call"},
+    {"name": "twolog", "path": "go/cmd/corr/twolog.go", "serves_properties": ["C13"],
+     "kind_free_text": "monitor: two or three WAFs alive in one process, each with its own audit log file (with and without SecAuditLogType); every record must land in the file of the WAF that created the transaction"},
     {"name": "op", "path": "go/cmd/corr/op.go", "serves_properties": ["C15"],
      "kind_free_text": "differential: Go operator factories/Evaluate vs Lean models (= documented predicates)"},
 ]
